@@ -9,7 +9,8 @@ CHECKS = {
     technique="Lean 4 proof (induction on the read loop, streaming-law hypothesis) + differential correspondence of the real hash_checksums under injected short reads",
     text="Theorems C16_chunks_concat / C16_digest_is_standard / C16_order_preserved hold for every content, buffer size >= 1, "
          "short-read pattern and algorithm tuple. The model is tied to /repo by replaying the real function with a controlled readinto "
-         "and recording hash objects; recorded digests of real datasets are compared with independent one-shot digests.",
+         "and recording hash objects; recorded digests of real datasets are compared with independent one-shot digests."
+         " Overlapping calls: six threads digest different multi-chunk files at the same time; every result must equal the one-shot digest (the model treats a call as a pure function of the file's bytes - shared state between calls would falsify that).",
     note="Digest algorithms (hashlib, xxhash) and CPython file objects are modelled, not verified; streaming law is an explicit hypothesis.",
     ref="DESIGN.md §5 C16"),
  "C10": dict(
@@ -51,21 +52,23 @@ CHECKS = {
          "C02_exactly_once_sync/_concurrent/_async: every complete run of an interface yields a permutation of (selected shards' examples).map g, for every shuffle size, "
          "file_parallelism>=1 and schedule. The monitors are tied to /repo by replaying boundary traces of the real shuffle_buffer/round_robin (sync and async); "
          "datasets are read through sync/concurrent/async/rust/tf.data and compared as multisets with process_record call counts."
-         ' System level (SedpackProps/C02System.lean): C02_session_examples_perm / C02_history_examples_perm / C02_written_is_enumerated (the examples enumerated for a split after any history of sessions with fresh shard names are, as a multiset, exactly the examples the sessions stored for it) and C02_end_to_end (composed with the pipeline theorems: one pass of the synchronous, concurrent or asyncio interface - any shuffle size, parallelism and schedule - delivers a permutation of everything written).',
+         ' System level (SedpackProps/C02System.lean): C02_session_examples_perm / C02_history_examples_perm / C02_written_is_enumerated (the examples enumerated for a split after any history of sessions with fresh shard names are, as a multiset, exactly the examples the sessions stored for it) and C02_end_to_end (composed with the pipeline theorems: one pass of the synchronous, concurrent or asyncio interface or of the Rust reader (C02_exactly_once_rust over M-PMAP) - any shuffle size, parallelism and schedule - delivers a permutation of everything written).',
     note="tf.data operators and the Rust reader's timing are specified externals (outputs compared). Which shards are selected is C12/C04.",
     ref="DESIGN.md §5 C02"),
  "C03": dict(
     technique="Lean 4 proof (unshuffled output equals a function of the on-disk state for every file_parallelism; session write order from the M-FILL conservation invariant; composed end to end M-FILL -> M-TREE -> M-PIPE: after a filler session every unshuffled reader yields the previous examples followed by the accepted writes in write order) + end-to-end sequence comparison across passes, reopen, parallelism and delays; batch-structure correspondence",
     text="C03_sync/_concurrent/_async_unshuffled_eq, C03_interfaces_agree, C03_session_order; SedpackProps/C03System.lean: C03_filler_session_end_to_end, C03_enumeration_of_flat_split, C03_reader_sees_write_order "
          "(the three models composed: write_example ... write_config ... as_numpy_iterator*, for every operation sequence, history, shard size and read parallelism). The real interfaces are run with shuffle=0 over two passes and a reopened handle, "
-         "file_parallelism 1..#shards+2 and seeded loader delays; sequences must equal the write order; the executor batches are compared with Iter.batches.",
+         "file_parallelism 1..#shards+2 and seeded loader delays; sequences must equal the write order; the executor batches are compared with Iter.batches."
+         " SedpackProps/C03Rust.lean: C03_rust_unshuffled_eq - the Rust reader (shard list -> full pass of M-PMAP with any thread count and interleaving -> each shard's examples in order) yields the same list.",
     note="Executor.map ordering, tf.data deterministic interleave and the Rust channel order are specified externals; the shard enumeration order of nested lists is proved with M-TREE (C04 file).",
     ref="DESIGN.md §5 C03"),
  "C14": dict(
     technique="Lean 4 proof (read-ahead inequalities as invariants over every reachable monitor / LTS state; productivity) + measured read-ahead of the real generators, LazyPool and interfaces on finite and infinite sources",
     text="C14_shuffle_buffer_readahead (<= b+1, <= b between nexts), C14_shuffle_buffer_prefill, C14_round_robin_readahead (<= b open), C14_pool_inflight (<= 2T+2), "
          "C14_batches_bounded, C14_shuffle_buffer_productive. Measured pulled-yielded of the real code equals the monitor's value on the same trace; LazyPool read-ahead "
-         "is checked to be independent of the input length; shard opens for k examples of a repeating stream are bounded independently of the dataset size.",
+         "is checked to be independent of the input length; shard opens for k examples of a repeating stream are bounded independently of the dataset size."
+         ' Rust reader (SedpackProps/C14Rust.lean): C14_rust_total_read_ahead - in every reachable state of M-PMAP, also after drop, the items taken from the input are at most the results returned plus the worker count; the cargo harness measures exactly that on the real parallel_map (instrumented input iterator: pulled for k results, and by the time the iterator is dropped) and the recorded channel operations must contain no next() after drop.',
     note="Memory inside TensorFlow / the Rust extension is out of scope; the shard-path shuffle buffer holds path strings only.",
     ref="DESIGN.md §5 C14"),
  "C19": dict(
@@ -134,9 +137,10 @@ CHECKS = {
     ref="DESIGN.md §5 C20"),
  "C15": dict(
     technique="Lean 4 proof (per-worker pipeline invariant of the channel-operation LTS M-PMAP in (round, slot) coordinates: output = input order, completeness at the end, one outstanding task per worker, deadlock freedom, drop lets workers exit, termination) + trace-level correspondence: the order of channel operations recorded under real thread interleavings by an env-guarded hook in parallel_map.rs is accepted by M-PMAP and reproduces the real output + output-level correspondence: cargo integration test of parallel_map and the rebuilt extension vs the Python reader",
-    text="C15_output_in_input_order, C15_only_items, C15_complete_at_end, C15_one_outstanding, C15_deadlock_free, C15_drop_lets_workers_exit for every worker count, input length and interleaving. "
+    text="C15_output_in_input_order, C15_only_items, C15_complete_at_end, C15_full_pass_is_the_input (a full pass returns exactly the input positions 0..n-1 in order), C15_terminates, C15_one_outstanding, C15_deadlock_free, C15_drop_lets_workers_exit for every worker count, input length and interleaving. "
          "parallel_map is driven by a cargo test (item-dependent delays, stalling consumer, early drops with /proc/self/task thread counts); the extension rebuilt from /repo/rust is compared with "
-         "as_numpy_iterator for threads <,=,> #shards, all supported compressions, uneven shards, early close; the model's outputs under pseudo-random schedules are compared with both. With SEDPACK_VERIF=1 the hook records every worker recv / worker send / consumer next / drop in a global order consistent with the channel synchronisation; every recorded trace (three mapped functions with different delay profiles, 1..128 threads, full passes and early drops) must be accepted by M-PMAP step by step and leave the model with the output the iterator really produced.",
+         "as_numpy_iterator for threads <,=,> #shards, all supported compressions, uneven shards, early close; the model's outputs under pseudo-random schedules are compared with both. With SEDPACK_VERIF=1 the hook records every worker recv / worker send / consumer next / drop in a global order consistent with the channel synchronisation; every recorded trace (three mapped functions with different delay profiles, 1..128 threads, full passes and early drops) must be accepted by M-PMAP step by step and leave the model with the output the iterator really produced."
+         ' SedpackProps/C15Python.lean: C15_rust_equals_python - composed with the pipeline model of the Python interfaces, the unshuffled Rust reader and the synchronous / concurrent Python readers yield the same list for every thread count of either and every timing.',
     note="Rust thread interleavings are observed (hook) but not controlled: the schedules exercised are those the OS produces under three delay profiles, the theorems cover all of them; after `drop` the recorded trace is cut (whether a pending send still succeeds is a race) and thread exit is decided by /proc/self/task counts; worker panics (C07) are tied at output level only; std::sync::mpsc FIFO/disconnect semantics are a specified external.",
     ref="DESIGN.md §5 C15, Appendix A.3"),
  "C01": dict(
@@ -151,7 +155,8 @@ CHECKS = {
     technique="Lean 4 proof (corollaries of exactly-once: a complete pass delivers every source element; lazy pool with a failing input: no normal end, no deadlock, finite schedules, terminal state = re-raised; Rust: dead worker reported, pinned semantics' truncation witnessed by decide) + fault planting under a watchdog over every interface, and scheduler-controlled pool runs",
     text="C07_pool_fault_raises, C07_complete_pass_delivers_everything, C07_round_robin_delivers_everything, C07_rust_dead_worker_is_reported, C07_fstep_eq_step, C07_rust_original_truncates / _repaired_raises. "
          "Shards are deleted / emptied / overwritten with garbage / truncated at the first, middle and last position; every interface x shuffle on/off x file_parallelism runs under a 60 s alarm and must raise; "
-         "a damage counts only if the format library itself (flatbuffers / numpy / TFRecord reader, independent of sedpack's iteration code) rejects the file. The lazy pool with a failing loader runs under the deterministic scheduler.",
+         "a damage counts only if the format library itself (flatbuffers / numpy / TFRecord reader, independent of sedpack's iteration code) rejects the file. The lazy pool with a failing loader runs under the deterministic scheduler."
+         " Rust worker panics: the cargo harness runs parallel_map with a function panicking on one item (every position x 1/2/3/8 threads); the pass must raise with exactly the results before that item; the channel operations recorded by the SEDPACK_VERIF hook, plus the consumer's failing next(), are replayed on M-PMAP's fault-aware step (pmapfault endpoint) and must leave the model failed with the same output (C07_rust_dead_worker_is_reported).",
     note="Executor / asyncio / tf.data error propagation and Rust panic unwinding are specified externals; bounded time is a watchdog at run time and a step bound (mu) in the model.",
     ref="DESIGN.md §5 C07"),
 }
